@@ -7,5 +7,8 @@ cd /repo || exit 2
 if ! git diff --quiet; then echo "repo dirty"; exit 2; fi
 git apply "$patch" || { echo "patch does not apply"; exit 2; }
 trap 'git -C /repo checkout -- . ; git -C /repo clean -fdq -- pkg cmd 2>/dev/null' EXIT
-cd /verif && bin/check "$id" --tier "$tier" 2>&1 | grep -E "VIOLATION|KNOWN-FINDING|ENGINE-ERROR|UNCONFIRMED|tier=" | cut -c1-400 | head -${MUTANT_LINES:-8}
-echo "exit=${PIPESTATUS[0]}"
+out=$(mktemp)
+cd /verif && bin/check "$id" --tier "$tier" > "$out" 2>&1; code=$?
+grep -E "VIOLATION|ENGINE-ERROR|UNCONFIRMED|tier=" "$out" | cut -c1-${MUTANT_COLS:-400} | head -${MUTANT_LINES:-8}
+echo "known-findings=$(grep -c KNOWN-FINDING "$out") exit=$code"
+rm -f "$out"
